@@ -233,6 +233,11 @@ func runOnce(t *testing.T, c tcase, phase string, rng *rand.Rand, out *vio.Out) 
 		}()
 		synctest.Wait() // the first call is blocked in its select (or has returned when n = 0)
 		if phase == "during" {
+			select {
+			case <-done: // the first call is already over: this is a later call, not an overlapping one
+				r.Phase = "after"
+			default:
+			}
 			p, msg := callRecover(func() { coll.MeasureClockOffsets(context.Background(), nil, nil) })
 			r.Refused = p && msg == guardMsg
 			r.P2Other = p && msg != guardMsg
@@ -341,7 +346,7 @@ func TestC16(t *testing.T) {
 	out := vio.Create(t)
 	defer out.Close()
 	rng := vio.Rand()
-	reps := 20
+	reps := 60
 	if vio.Thorough() {
 		reps = 500
 	}
